@@ -461,3 +461,114 @@ collect:
 	}
 	return fmt.Sprintf("ok %d %d", joins, ids), oracle
 }
+
+// ---------------------------------------------------------------- disp: client.dispatch (reply matching)
+
+type dispReq struct {
+	req  *p2p.VerifRequest
+	done chan error // result of waitForResult (nil = a reply arrived)
+}
+
+// opDisp drives the real client.dispatch → packPipe on injected channels (p2p.VerifNewDispatcher):
+// q = a local request goes out (its nonce is read back from the encoded package),
+// c<k> = the requester of nonce k gives up, r<k> = a reply packet with RequestNonce k arrives.
+func opDisp(evs string) (string, string) {
+	setup()
+	d := p2p.VerifNewDispatcher(localID, 21)
+	defer d.Cancel()
+	reqs := map[uint64]*dispReq{}
+	to := time.After(6 * stepWait)
+	send := func() (uint64, string) {
+		r := &dispReq{req: p2p.VerifNewRequest(context.Background(), false, []byte("remote-node-id-00002"), &vss.Signature{RequestId: []byte("q")}, 0), done: make(chan error, 1)}
+		go func() { _, err := r.req.Wait(); r.done <- err }()
+		if err := d.Send(r.req); err != nil {
+			return 0, "send: " + err.Error()
+		}
+		select {
+		case b := <-d.Out: // the package leaving for the peer carries the nonce dispatch assigned
+			pa := &p2p.Package{}
+			if err := proto.Unmarshal(b, pa); err != nil {
+				return 0, "out: " + err.Error()
+			}
+			reqs[pa.RequestNonce] = r
+			return pa.RequestNonce, ""
+		case <-to:
+			return 0, "hang"
+		}
+	}
+	// barrier: a non-reply message goes through dispatch to the feed only after the previous event was handled
+	barrier := func() bool {
+		select {
+		case d.Recv <- p2p.P2PMessage{Msg: ptypes.DynamicAny{Message: &vss.Signature{}}}:
+		case <-to:
+			return false
+		}
+		select {
+		case <-d.Feed:
+			return true
+		case <-to:
+			return false
+		}
+	}
+	reply := func(k uint64) string {
+		select {
+		case d.Reply <- p2p.P2PMessage{Msg: ptypes.DynamicAny{Message: &vss.Signature{RequestId: []byte("a")}}, Sender: []byte("remote-node-id-00002"), RequestNonce: k}:
+		case <-to:
+			return "hang"
+		}
+		if !barrier() {
+			return "hang"
+		}
+		r, ok := reqs[k]
+		if !ok {
+			return "dropped"
+		}
+		delete(reqs, k)
+		select {
+		case err := <-r.done:
+			if err == nil {
+				return "ok matched"
+			}
+			r.done <- err
+			return "ok late"
+		case <-time.After(50 * time.Millisecond):
+			return "ok lost" // pending, not cancelled, and the requester heard nothing
+		}
+	}
+	var outs []string
+	for _, ev := range splitList(evs, ";") {
+		switch {
+		case ev == "q":
+			k, e := send()
+			if e != "" {
+				return "hang", "hang-disp: " + e
+			}
+			outs = append(outs, fmt.Sprintf("ok sent %d", k))
+		case ev[0] == 'c':
+			if r, ok := reqs[uint64(atoi(ev[1:]))]; ok {
+				r.req.Cancel()
+				err := <-r.done // the requester returned with its context error
+				r.done <- err
+			}
+			outs = append(outs, "ok")
+		case ev[0] == 'r':
+			var k uint64
+			fmt.Sscanf(ev[1:], "%d", &k)
+			o := reply(k)
+			if o == "hang" {
+				return "hang", "hang-disp: dispatch does not take messages"
+			}
+			outs = append(outs, o)
+		default:
+			panic("bad disp event " + ev)
+		}
+	}
+	// still serving: an honest round trip
+	oracle := ""
+	if k, e := send(); e != "" {
+		oracle = "not-serving-disp: a request after the case did not go out: " + e
+	} else if o := reply(k); o != "ok matched" {
+		oracle = "not-serving-disp: the reply to a request after the case gave " + o
+	}
+	return strings.Join(outs, ";"), oracle
+}
